@@ -44,6 +44,12 @@ class Ctx:
         self.merged_atoms = 0
         self.lemma_queries = 0
         self._sqrt: dict[int, Term] = {}
+        self._pos: dict[int, Term] = {}
+        self._sm: dict[tuple, list] = {}
+        self._sm_vars: dict[tuple, list] = {}
+        self.disable_softmax_abstraction = False
+        self._pos_memo: dict[int, bool] = {}
+        self.positive_vars: set = set()
         self._max: dict[tuple, Term] = {}
         self._opq: dict[tuple, Term] = {}
         self._fresh = 0
@@ -129,6 +135,42 @@ class Ctx:
             self.atom_def[a] = ("sqrt", t)
             self.env[a] = math.sqrt(v) if v >= 0 else float("nan")
             self.side.append(T.eq(T.mul(a, a), t))
+        return a
+
+    def is_pos(self, t: Term) -> bool:
+        """cheap syntactic positivity (atoms, variables assumed positive, sums/products/quotients/ites)."""
+        memo = self._pos_memo
+        for n in T.postorder([t]):
+            if n.id in memo:
+                continue
+            op = n.op
+            if op == "const":
+                r = n.data > 0
+            elif op == "atom":
+                r = True
+            elif op == "var":
+                r = n in self.positive_vars
+            elif op in ("add", "mul"):
+                r = all(memo[a.id] for a in n.args)
+            elif op == "div":
+                r = memo[n.args[0].id] and memo[n.args[1].id]
+            elif op == "pow":
+                r = memo[n.args[0].id]
+            elif op == "ite":
+                r = memo[n.args[1].id] and memo[n.args[2].id]
+            else:
+                r = False
+            memo[n.id] = r
+        return memo[t.id]
+
+    def pos_atom(self, t: Term) -> Term:
+        a = self._pos.get(t.id)
+        if a is None:
+            a = T.atom(f"POS[#{t.id}]")
+            self._pos[t.id] = a
+            self.atom_def[a] = ("pos", t)
+            self.env[a] = self.value(t)
+            self.side.append(T.eq(a, t))
         return a
 
     def max_atom(self, key: tuple, value: float) -> Term:
@@ -646,16 +688,23 @@ def _lin_add(a: Val, b: Val) -> Val:
     im = None
     if cplx:
         im = T.add(ai if ai is not None else T.ZERO, bi if bi is not None else T.ZERO)
+    elif mu:
+        re, mu = _cancel_pos(re, mu)
     return Val("lin", re, im, mu)
 
 
 def _sqrt_norm(mu: tuple):
-    """SQRT[t]^(2k) -> t^k : returns (factor Term, reduced monomial)."""
+    """Normalise a monomial.  (1) SQRT[t]^(2k) -> t^k (returned as a factor Term);  (2) all E-atoms
+    with a *compound* exponent (not a plain variable) are combined into ONE atom of the summed
+    exponent, E[c1]^e1 * E[c2]^e2 -> E[e1*c1 + e2*c2], so that e.g. the exponent of a product of
+    Gaussians and the sum of the factors' exponents meet in the same atom (after the solver proved
+    the two exponents equal -- see Ctx.E)."""
     if not mu:
         return T.ONE, mu
     fac = T.ONE
     out = []
     changed = False
+    ecores = []
     for k, e in mu:
         d = CTX.atom_def.get(k)
         if d is not None and d[0] == "sqrt" and abs(e) >= 2:
@@ -665,9 +714,35 @@ def _sqrt_norm(mu: tuple):
             if r:
                 out.append((k, r if e > 0 else -r))
             changed = True
+        elif d is not None and d[0] == "exp" and d[1].op != "var":
+            ecores.append((k, e, d[1]))
         else:
             out.append((k, e))
-    return (fac, tuple(out)) if changed else (T.ONE, mu)
+    if ecores:
+        if len(ecores) == 1 and ecores[0][1] == 1:
+            out.append((ecores[0][0], 1))
+        else:
+            core = T.add(*[T.mul(T.const(e), c) for _, e, c in ecores])
+            changed = True
+            if core.op == "const":
+                if core.data != 0:
+                    v = exp_val(core)
+                    fac = T.mul(fac, v.re)
+                    out.extend(v.mu)
+            elif core.op == "var":
+                out.append((CTX.E(core), 1))
+            else:
+                q, c2 = _split_coef(core)
+                if q.denominator == 1 and c2.op == "var":
+                    out.append((CTX.E(c2), int(q)))
+                else:
+                    out.append((CTX.E(core), 1))
+    if not changed:
+        return T.ONE, mu
+    d2: dict = {}
+    for k, e in out:
+        d2[k] = d2.get(k, 0) + e
+    return fac, tuple(sorted(((k, e) for k, e in d2.items() if e), key=lambda kv: kv[0].id))
 
 
 def _P_mul(a: Val, b: Val, kind: str) -> Val:
@@ -682,10 +757,27 @@ def _P_mul(a: Val, b: Val, kind: str) -> Val:
     return Val(kind, re, im, mu)
 
 
+def _cancel_pos(re: Term, mu: tuple):
+    """(S) * POS[S]^-1 -> 1 : a sum that reproduces the defining term of a denominator atom cancels."""
+    for k, e in mu:
+        if e < 0:
+            d = CTX.atom_def.get(k)
+            if d is not None and d[0] == "pos" and d[1] is re:
+                return T.ONE, mu_mul(mu, ((k, 1),))
+    return re, mu
+
+
 def _P_inv(a: Val) -> Val:
-    mu = mu_pow(a.mu, -1)
+    fac0, mu = _sqrt_norm(mu_pow(a.mu, -1))
+    if fac0 is not T.ONE:
+        a = Val(a.kind, T.div(a.re, fac0), None if a.im is None else T.div(a.im, fac0), a.mu)
     if a.im is None:
-        return Val(a.kind, T.div(T.ONE, a.re), None, mu)
+        re = a.re
+        if re.op not in ("const", "var", "atom") and CTX.is_pos(re):
+            # reciprocal of a compound term known to be positive: keep the denominator as an atom of
+            # the monomial so that normalisations (sum of softmax = 1, ...) cancel syntactically
+            return Val(a.kind, T.ONE, None, mu_mul(mu, ((CTX.pos_atom(re), -1),)))
+        return Val(a.kind, T.div(T.ONE, re), None, mu)
     d = T.add(T.mul(a.re, a.re), T.mul(a.im, a.im))
     return Val(a.kind, T.div(a.re, d), T.neg(T.div(a.im, d)), mu)
 
@@ -731,6 +823,9 @@ def _split_coef(a: Term):
 _CONST_BASES = (("SQRT2PI", LOG_SQRT_2PI), ("TWO", LOG_2))
 
 
+_IN_NORM = [False]
+
+
 def exp_val(t: Term) -> "Val":
     """exp(t) as a Lin value: exponentials of sums factor, integer multiples of a core become powers
     of the atom E[core], if-then-else distributes (so that a table lookup with a symbolic index
@@ -773,6 +868,13 @@ def exp_val(t: Term) -> "Val":
             at = CTX.E(a)
             mu[at] = mu.get(at, 0) + 1
     m = tuple(sorted(((k, e) for k, e in mu.items() if e), key=lambda kv: kv[0].id))
+    if not _IN_NORM[0]:
+        _IN_NORM[0] = True
+        try:
+            fac, m = _sqrt_norm(m)
+        finally:
+            _IN_NORM[0] = False
+        coef = T.mul(coef, fac)
     r = Val("lin", coef, None, m)
     for a in ites:
         q, core = _split_coef(a)
@@ -789,6 +891,46 @@ def exp_of_term(t: Term):
     """exp(t) as (term, monomial)."""
     v = exp_val(t)
     return v.re, v.mu
+
+
+def softmax_lane(vs: list) -> list:
+    """softmax of a 1-D lane of values.
+
+    If the lane consists of distinct plain parameter variables theta_0..theta_{n-1}, the result is
+    abstracted to a point of the open simplex: fresh positive atoms SM_j (j < n-1) and
+    SM_{n-1} := 1 - sum_j SM_j, assumed positive.  theta -> softmax(theta) is onto the open simplex, so
+    a property proved for every simplex point holds for every theta (sound for unsat); the link between
+    theta and SM is dropped, so a model is only a candidate and is replayed with theta_j = log SM_j.
+    Normalisation sum_j SM_j = 1 then holds by construction.  Otherwise: exp(v_j) / sum_k exp(v_k)."""
+    n = len(vs)
+    plain = all(
+        isinstance(v, Val) and v.kind == "lin" and v.im is None and not v.mu and v.re.op == "var" for v in vs
+    ) and len({v.re.id for v in vs}) == n
+    if plain and n >= 2 and not CTX.disable_softmax_abstraction:
+        key = tuple(v.re.id for v in vs)
+        got = CTX._sm.get(key)
+        if got is None:
+            th = [float(CTX.env[v.re]) for v in vs]
+            mx = max(th)
+            ex = [math.exp(t - mx) for t in th]
+            tot = sum(ex)
+            atoms = []
+            for j in range(n - 1):
+                a = T.atom(f"SM[{vs[0].re.data}..][{j}]")
+                CTX.env[a] = ex[j] / tot
+                CTX.atom_def[a] = ("softmax", key, j)
+                atoms.append(a)
+            last = T.sub(T.ONE, T.add(*atoms))
+            CTX.assumptions.append(T.gt(last, T.ZERO))
+            got = [Val("lin", a) for a in atoms] + [Val("lin", last)]
+            CTX._sm[key] = got
+            CTX._sm_vars[key] = [v.re for v in vs]
+        return list(got)
+    es = [v.exp() for v in vs]
+    tot = es[0]
+    for e in es[1:]:
+        tot = tot + e
+    return [e / tot for e in es]
 
 
 def close(a, b, rtol=1e-7, atol=1e-9) -> bool:
